@@ -99,6 +99,8 @@ def _match_display_names_exact(
     for prop in importable_props:
         if prop in display_name_to_key:
             feature_key, idx = display_name_to_key[prop]
+            if feature_key in mapping or idx in multi_value_matches.get(feature_key, {}):
+                continue  # already assigned: leave the column for the later steps
             # Check if this is a multi-value feature (has other indices)
             is_multi_value = any(
                 k == feature_key and i != idx for _, (k, i) in display_name_to_key.items()
@@ -168,6 +170,8 @@ def _match_display_names_fuzzy(
 
         if closest:
             _, feature_key, idx = lower_display_map[closest[0]]
+            if feature_key in mapping or idx in multi_value_matches.get(feature_key, {}):
+                continue  # already assigned: leave the column for the later steps
             # Check if this is a multi-value feature
             is_multi_value = any(
                 k == feature_key and i != idx for _, (k, i) in display_name_to_key.items()
@@ -304,6 +308,9 @@ def infer_node_name_map(
 
     # Step 2: Fuzzy matches for remaining standard fields
     props_left = _match_fuzzy(standard_fields, props_left, mapping)
+
+    # Columns spelled exactly like a feature key are mapped to that key
+    props_left = _match_exact(list(node_features.keys()), props_left, mapping)
 
     # Step 3: Exact matches with feature display names
     props_left = _match_display_names_exact(props_left, display_name_to_key, mapping)
